@@ -44,7 +44,11 @@ func CanonicaliseTables(p *core.Prog, verif string) error {
 				fmt.Printf("  %s: no function of the current tree matches key %q (entry left as is)\n", name, e.Key)
 				continue
 			}
-			e.CKey = p.CanonKey(e.Key)
+			if e.CKey == "" {
+				// the canonical key of a new entry is the key the checker prints for the obligation (expressions are
+				// rendered by core.KeyStr, which a text rewrite cannot reproduce): paste it in by hand
+				fmt.Printf("  %s: entry %q has no ckey - copy the key printed by `yfcheck -dump` for this construct\n", name, e.Key)
+			}
 			e.CNeeds = nil
 			for _, w := range e.Needs {
 				e.CNeeds = append(e.CNeeds, p.CanonText(root, w))
@@ -103,8 +107,8 @@ func CanonicaliseTables(p *core.Prog, verif string) error {
 			fh.Close()
 			return err
 		}
-		if p.RootFuncOfKey(k.Key) != "" {
-			k.CKey = p.CanonKey(k.Key)
+		if k.CKey == "" {
+			fmt.Printf("  KNOWN_FINDINGS: entry %q has no ckey - copy the key printed by the check\n", k.Key)
 		}
 		var buf bytes.Buffer
 		enc := json.NewEncoder(&buf)
